@@ -32,7 +32,7 @@ def _final_ids(tag: str) -> list[int]:
     return [0, 1, 2, 3] if tag.startswith("psi4") else ([1, 2, 3] if tag.endswith("+r") else [0, 1, 2])
 
 
-def gen_config_op(rng, slot: int, tag: str) -> dict:
+def gen_config_op(rng, slot: int, tag: str, dyn=None, sel_range: int = 64) -> dict:
     kind = rng.choices(["align", "scalar", "stable", "helcoup", "naming", "assign", "permutate", "register"],
                        weights=[5, 3, 4, 2, 2, 5, 1, 1])[0]
     op = {"op": kind, "b": slot}
@@ -59,8 +59,8 @@ def gen_config_op(rng, slot: int, tag: str) -> dict:
         op["v"] = rng.random() < 0.5
     elif kind == "assign":
         sel_kind = rng.choices(["name", "decay", "tuple"], weights=[5, 2, 1])[0]
-        op["sel"] = {"kind": sel_kind, "i": rng.randrange(64), "n": rng.randrange(3)}
-        op["dyn"] = rng.choice(DYN)
+        op["sel"] = {"kind": sel_kind, "i": rng.randrange(sel_range), "n": rng.randrange(3)}
+        op["dyn"] = rng.choice(dyn or DYN)
     elif kind == "register":
         op["t"] = rng.randrange(8)
         op["r"] = rng.randrange(1, 4)
@@ -86,6 +86,9 @@ def generate(seed_: int, run: int, reactions: list[str]) -> dict:
     # a run concentrates on 1-2 reaction families so that builders share cache entries
     focus = rng.choices(tags, weights=weights, k=rng.choice([1, 1, 2]))
     n_segments = rng.choice([1, 1, 2, 3])
+    # swarm knobs: few builder kinds and few selections per run => the same nodes get re-assigned
+    dyn = rng.sample(DYN, k=rng.choice([2, 3, 4])) if rng.random() < 0.7 else DYN
+    sel_range = rng.choice([1, 2, 3, 64])
     segments = []
     for _ in range(n_segments):
         cfg = rng.choice(core.hash_configs(seed_, run))
@@ -99,8 +102,16 @@ def generate(seed_: int, run: int, reactions: list[str]) -> dict:
         for _ in range(rng.randrange(3, 13)):
             slot = rng.randrange(n_builders)
             r = rng.random()
-            if r < 0.45:
-                ops.append(gen_config_op(rng, slot, slots[slot]))
+            if r < 0.12:
+                # directed pattern: the same selection gets builder kind A, then kind B, with a
+                # formulate() after each, on this builder or on another one of the same reaction
+                sel = {"kind": rng.choice(["name", "name", "decay"]), "i": rng.randrange(sel_range), "n": 0}
+                first, second = rng.choice(dyn), rng.choice(dyn)
+                other = rng.choice([b for b in range(n_builders) if slots[b] == slots[slot]])
+                ops += [{"op": "assign", "b": slot, "sel": sel, "dyn": first}, gen_formulate(rng, slot, False),
+                        {"op": "assign", "b": other, "sel": sel, "dyn": second}, gen_formulate(rng, other, False)]
+            elif r < 0.45:
+                ops.append(gen_config_op(rng, slot, slots[slot], dyn, sel_range))
             elif r < 0.92:
                 ops.append(gen_formulate(rng, slot, fault_mode))
             elif fault_mode:
